@@ -19,7 +19,30 @@ P = ["C10"]
 NETS = [("examples/networks/Net1.inp", 6), ("wntr/tests/networks_for_testing/time_controls.inp", 8),
         ("wntr/tests/networks_for_testing/tank_controls_1.inp", 8), ("wntr/tests/networks_for_testing/conditional_controls_1.inp", 8),
         ("wntr/tests/networks_for_testing/control_comb.inp", 8), ("wntr/tests/networks_for_testing/cv_controls.inp", 6),
-        ("wntr/tests/networks_for_testing/leaks.inp", 6), ("examples/networks/Net3.inp", 6)]
+        ("wntr/tests/networks_for_testing/leaks.inp", 6), ("builtin:isolated_branch_pipe", 6), ("builtin:isolated_branch_pump", 6),
+        ("examples/networks/Net3.inp", 6)]
+
+
+def _builtin(name):
+    """a dead-end branch cut off at 2 h and reconnected at 4 h (the pause falls inside, before and after the isolation)"""
+    import wntr
+    from wntr.network.controls import Control, ControlAction
+    wn = wntr.network.WaterNetworkModel()
+    wn.add_reservoir("R", base_head=50)
+    wn.add_junction("A", base_demand=0.01, elevation=0)
+    wn.add_junction("B", base_demand=0.01, elevation=0)
+    wn.add_junction("C", base_demand=0.005, elevation=1)
+    wn.add_pipe("RA", "R", "A", length=100, diameter=0.3, roughness=100)
+    if name == "isolated_branch_pipe":
+        wn.add_pipe("AB", "A", "B", length=100, diameter=0.3, roughness=100)
+    else:
+        wn.add_curve("pc", "HEAD", [(0.0, 30.0), (0.05, 20.0), (0.1, 0.0)])
+        wn.add_pump("AB", "A", "B", pump_type="HEAD", pump_parameter="pc")
+    wn.add_pipe("BC", "B", "C", length=100, diameter=0.3, roughness=100)
+    link = wn.get_link("AB")
+    wn.add_control("verif_close", Control._time_control(wn, 2 * 3600, "SIM_TIME", False, ControlAction(link, "status", 0)))
+    wn.add_control("verif_open", Control._time_control(wn, 4 * 3600, "SIM_TIME", False, ControlAction(link, "status", 1)))
+    return wn
 
 
 def _repo():
@@ -49,7 +72,7 @@ def _run(shard, nshards):
         root = _repo()
         evals, distinct, failures, samples = 0, set(), [], []
         idx = 0
-        nets = NETS if tier == "thorough" else NETS[:7]
+        nets = NETS if tier == "thorough" else NETS[:-1]
         for (rel, hours) in nets:
             for with_rule in (False, True):
                 for pause_h in ((1, 3) if tier == "quick" else range(1, hours)):
@@ -57,7 +80,7 @@ def _run(shard, nshards):
                     if idx % nshards != shard:
                         continue
                     def mk():
-                        wn = wntr.network.WaterNetworkModel(os.path.join(root, rel))
+                        wn = _builtin(rel[8:]) if rel.startswith("builtin:") else wntr.network.WaterNetworkModel(os.path.join(root, rel))
                         wn.options.time.hydraulic_timestep = 3600
                         wn.options.time.report_timestep = 3600
                         wn.options.time.rule_timestep = 360
